@@ -509,6 +509,23 @@ _R13 = {
 }
 for _k, _v in _R13.items():
     RULE_ADDENDA[_k] = RULE_ADDENDA.get(_k, "") + _v
+# round 14 of the seeded changes
+_R14 = {
+    "C01": " Every second shard runs with a log target installed (the library's diagnostic lines are executed; replays restore that environment).",
+    "C02": " Half of the search responses carry further well-formed description blocks behind the mandatory two.",
+    "C03": " Real-clock plans in which nothing is pending: 1..4 requests acknowledged, the gateway ends the connection, a Send starts 0.3..6 ms later, with a log target that takes 0/2/5 ms per line installed.",
+    "C04": " A quarter of the socket job's plans are raw tunnels over UDP carrying L_Data, L_Raw and L_Busmon telegrams (5..300, acknowledged one by one); all deliveries are kept and compared with what was sent when the last one is in.",
+    "C09": " Scripted disconnect responses carry statuses 0x00/0x01/0x21/0x24/0x26/0x27/0xff.",
+    "C11": " A frame is decoded into a message variable (cemi.Unpack), handed on, and a second frame (whole, cut short, a stub) is decoded into the same variable: what was handed on stays.",
+    "C12": " The socket job keeps every received event with a private copy of its data and compares again at the end of the run.",
+    "C14": " Router.Send is given confirmations and requests too (by tag, varied headers); every retransmission is compared with the first transmission octet for octet.",
+    "C15": " A third of the search responses hold 1..4 kept blocks put into the value by hand.",
+    "C16": " The endpoint plans leave all, one or two of the timing fields of the configuration at zero.",
+    "C19": " Two fresh child processes decode the same payloads into all types of each wire length, in listing order and in reverse; what a type yields for a payload must agree between them.",
+    "C20": " A third of the frames of other services carry the body of a matching response under a neighbouring or unassigned service identifier.",
+}
+for _k, _v in _R14.items():
+    RULE_ADDENDA[_k] = RULE_ADDENDA.get(_k, "") + _v
 for _k, _add in RULE_ADDENDA.items():
     if " Non-trivial =" in CHECKS[_k]["rule"]:
         CHECKS[_k]["rule"] = CHECKS[_k]["rule"].replace(" Non-trivial =", " " + _add + " Non-trivial =", 1)
